@@ -68,13 +68,14 @@ void QXmppIncomingClientPrivate::checkCredentials(const QByteArray &response)
         request.setPassword(saslServer->password());
 
         QXmppPasswordReply *reply = passwordChecker->checkPassword(request);
-        reply->setParent(q);
+        // the reply belongs to this SASL exchange: it must not outlive the SASL server object that asked for it
+        reply->setParent(saslServer.get());
         reply->setProperty("__sasl_raw", response);
         QObject::connect(reply, &QXmppPasswordReply::finished,
                          q, &QXmppIncomingClient::onPasswordReply);
     } else if (saslServer->mechanism() == u"DIGEST-MD5") {
         QXmppPasswordReply *reply = passwordChecker->getDigest(request);
-        reply->setParent(q);
+        reply->setParent(saslServer.get());
         reply->setProperty("__sasl_raw", response);
         QObject::connect(reply, &QXmppPasswordReply::finished,
                          q, &QXmppIncomingClient::onDigestReply);
